@@ -17,9 +17,15 @@ namespace Op
 open Lang
 
 /-- the alternation of the regular expression: symbolic operators and punctuation in reverse sorted order -/
+def insertDesc (s : String) : List String → List String
+  | [] => [s]
+  | x :: xs => if x < s then s :: x :: xs else x :: insertDesc s xs
+
+/-- `sorted(operators, reverse=True)` (insertion sort; strings compare by code points as in Python) -/
+def sortDesc (l : List String) : List String := l.foldr insertDesc []
+
 def symbolOps (tbl : Table) : List String :=
-  let names := (tbl.filter (fun r => r.2.1 && r.1 != "and" && r.1 != "or")).map (·.1) ++ ["(", ")", ","]
-  (names.toArray.qsort (fun a b => b < a)).toList
+  sortDesc ((tbl.filter (fun r => r.2.1 && r.1 != "and" && r.1 != "or")).map (·.1) ++ ["(", ")", ","])
 
 def isPrefix : List Char → List Char → Bool
   | [], _ => true
